@@ -499,11 +499,17 @@ func (el *eventloop) msgTimeout() {
 			v.Done = true
 		}
 		msg.Error = codec.ErrMsgRequestTimeout
+		// the timeout error is the reply of this request: it is delivered in the
+		// request's position of the pipeline, like any other reply
+		msg.RspBody = append(msg.RspBody[:0], codec.ErrMsgRequestTimeout.Bytes()...)
+		msg.Done = true
 		if c == nil || !c.IsOpened() {
 			logging.Warnf("[%dm|%df][%dc] try to send request timeout but client already closed", frag.MsgId(), frag.Id, frag.OwnerFd())
 			continue
 		}
-		c.AsyncWrite(codec.ErrMsgRequestTimeout.Bytes(), nil)
+		if cc, ok := c.(*conn); ok {
+			el.flushDone(cc)
+		}
 		logging.Warnf("[%dm|%df][%dc] request timeout, consider raising config '[proxy]timeout=%d', send res: %s", frag.MsgId(), frag.Id, frag.OwnerFd(), el.engine.opts.RedisRequestTimeout, codec.ErrMsgRequestTimeout.ShortString())
 	}
 }
